@@ -613,6 +613,16 @@ func c05OneEvent(c *core.Ctx) {
 		ok := len(evs) == 1 && ab != nil && g.Dominates(evs[0].Loc, ab.Loc) && sameObj(u.Info(), ab.Arg(1), paramIdent(u, 1))
 		c.Check(R, k+"/emit-once-then-abort", u.Pos(), ok, "one connection_error carrying the same code, then the abort")
 	}
+	// a code returned by Handshake was already announced by Handshake: emitting again doubles the event
+	for _, cl := range callsAnywhere(c, "engine.(*server).emitAbortRequest", "engine.(*server).emitAbortUpgrade") {
+		if d, ok := cl.U.SingleDef(cl.Arg(1)); ok {
+			if te, isT := d.(*core.TupleElem); isT && te.Index == 0 {
+				if ce, isC := ast.Unparen(te.X).(*ast.CallExpr); isC && calleeNameOf(ce) == "Handshake" {
+					c.Violate(R, keyf("%s/%s(Handshake-code)", cl.U.Key, cl.Name), cl.Pos(), "Handshake emitted connection_error for this refusal already; emitting again produces two events")
+				}
+			}
+		}
+	}
 	n := 0
 	for _, cl := range callsAnywhere(c, "engine.abortRequest", "engine.abortUpgrade") {
 		u := cl.U
